@@ -6,12 +6,18 @@ RP : Hist.tla enumerates all meaningful command histories of length N (backup / 
 TV : the operation log of every history goes through RepoTrace.tla: Readable for every visible snapshot
      after every storage operation, keep-delete honoured at every pack removal, used blobs brought back
      by a completed prune, real check clean and real restore = recorded content after every command.
+PL : the planning half of prune decision by decision (bin/planner.py): PruneDecide.tla transcribes count_used_blobs,
+     PackInfo::from_pack, decide_packs and decide_repack; TLC checks the lemmas Safe / Timely / Thrifty / Accounted over
+     all one-pack (thorough: two-pack) configurations; one-pack configurations from TLC and seeded 2-5 pack ones in 1-3
+     index files are run through the real planner (hook PrunePlan::verif_decide) and PruneDecideTrace.tla compares every
+     decision with Todo(c) and re-evaluates Safe / Timely on the real decisions.
 """
 import json
 import os
 import random
 
 import gen
+import planner
 import vlib
 from repolib import classify, run_trace, tlc_histories
 
@@ -132,10 +138,14 @@ def run(ctx):
         ctx.sample({"id": p["id"], "hist": p["hist"], "cfg": p["cfg"]})
     ctx.assumptions += ["logical time: a tick is realised by shifting the stored pack times in the index files",
                         "instant-delete + early-delete-index is not generated (documented unsafe)"]
+    # the planning half of prune, decision by decision (PruneDecide.tla)
+    planner.run(ctx)
 
 
 def replay(ctx, path):
     rec = json.load(open(path))
+    if rec.get("kind") == "planner":
+        return planner.replay(ctx, rec)
     prog = rec["program"]
     recs, r = run_trace(ctx, [prog], "replay")
     classify(ctx, r, recs, {prog["id"]: prog}, STATE_TAGS, STEP_TAGS, "history safety")
